@@ -141,8 +141,15 @@ class Graph:
 
     def _objs(self, fx, coefficient=1.0):
         frame, ks, bits, kind, sub, (kinds, regs), wt, uw, slots, depth, seed = self.case[:11]
-        # the regularization matrix goes with the coefficient squared: scaled with the units the system is an exact rescaling
-        return [fix_inv.make_obj(fx, k, reg=r, seed=seed, coefficient=coefficient / self.units) for k, r in zip(kinds, regs)]
+        if self.units == 1.0:
+            return [fix_inv.make_obj(fx, k, reg=r, seed=seed, coefficient=coefficient) for k, r in zip(kinds, regs)]
+        # the regularization matrix goes with the coefficient squared: scaled with the units the system is an exact rescaling.
+        # The Constant scheme's fixed 1e-8 ridge is lost in round-off at such coefficients (numerically singular matrix, no
+        # defined log-determinant), so the other-units family uses the scheme that is positive definite by itself.
+        aa = fx["aa"]
+        c = coefficient / self.units
+        return [fix_inv.make_obj(fx, k, reg=r, seed=seed, regularization=aa.reg.ConstantZeroth(coefficient_neighbor=c, coefficient_zeroth=c) if r else None)
+                for k, r in zip(kinds, regs)]
 
     def _fresh(self, noise_factor=1.0):
         frame, ks, bits, kind, sub, (kinds, regs), wt, uw, slots, depth, seed = self.case[:11]
